@@ -428,4 +428,35 @@ def storeKey (pre : String) (id : Str) : Str := pre.toList ++ id
 /-- `trimKeyPrefix` (`strings.TrimPrefix`) -/
 def trimKey (pre : String) (k : Str) : Str := if pre.toList.isPrefixOf k then k.drop pre.toList.length else k
 
+/-! ### a whole store through `migratePre041` (run by `NewStore` on every start)
+
+The database is a list of records `(key, stored bytes)`. `migratePre041` visits every key with the
+old prefix and decodes the record into `var old connectorPre041`, *declared inside the loop body*
+(`Facts/C17.lean`, regenerated): a fresh zero value per record, so each old record is migrated on
+its own — a per-record map. A migrated record is written under the new key and the old key is
+deleted; an undecodable / unknown-type / empty-ID record is left where it is; records of any other
+key are not looked at. (Two records that end under the same new key — equal `XID`s — would
+overwrite each other in `GetKeys` order, which is unspecified for the in-memory DB; outside the model.) -/
+
+abbrev KV := List (Str × List Char)
+
+def isOldKey (k : Str) : Bool := connPre041KeyPrefix.toList.isPrefixOf k
+
+/-- one record through the migration, independently of every other record. -/
+def migrateRec (r : Str × List Char) : Str × List Char :=
+  if isOldKey r.1 then
+    match (parse r.2).bind migrateDoc with
+    | some p => (storeKey connKeyPrefix p.1, p.2.print)
+    | none => r
+  else r
+
+def migrateStore (db : KV) : KV := db.map migrateRec
+
+/-- `Store.GetAll`: every record under the connector prefix, decoded; any failure fails the call. -/
+def getAllConn (db : KV) : Option (List (Str × ConnInstance)) :=
+  (db.filter fun r => connKeyPrefix.toList.isPrefixOf r.1).mapM fun r =>
+    match loadConn r.2 with
+    | some (.ok x) => some (trimKey connKeyPrefix r.1, x)
+    | _ => none
+
 end Conduit.Codec
